@@ -184,8 +184,8 @@ func errorPathNotSwallowed(c *core.Ctx, rule string, pkgs []string, allow map[st
 			// forward walk without back edges
 			seen := map[*ssa.BasicBlock]bool{}
 			var bad *ssa.Return
-			var walk func(x *ssa.BasicBlock)
-			walk = func(x *ssa.BasicBlock) {
+			var walk func(x, from *ssa.BasicBlock)
+			walk = func(x, from *ssa.BasicBlock) {
 				if seen[x] || bad != nil {
 					return
 				}
@@ -199,14 +199,38 @@ func errorPathNotSwallowed(c *core.Ctx, rule string, pkgs []string, allow map[st
 					}
 				}
 				skip := r7sentinelEdge(x, ev)
+				// a short-circuit condition (a || b) is a phi of booleans: entering from the predecessor whose edge is a
+				// constant, only the corresponding successor is feasible
+				var only *ssa.BasicBlock
+				if len(x.Instrs) > 0 && from != nil {
+					if ifi, ok := x.Instrs[len(x.Instrs)-1].(*ssa.If); ok {
+						if ph, ok := ifi.Cond.(*ssa.Phi); ok && ph.Block() == x {
+							for pi, pr := range x.Preds {
+								if pr != from || pi >= len(ph.Edges) {
+									continue
+								}
+								if k, ok := ph.Edges[pi].(*ssa.Const); ok && k.Value != nil && k.Value.Kind() == constant.Bool {
+									if constant.BoolVal(k.Value) {
+										only = x.Succs[0]
+									} else {
+										only = x.Succs[1]
+									}
+								}
+							}
+						}
+					}
+				}
 				for _, s := range x.Succs {
-					if s.Dominates(x) || s == skip { // back edge / the error is a sentinel (io.EOF, ErrNoMatch…), not a failure
+					if s.Dominates(x) || s == skip || (only != nil && s != only) { // back edge / sentinel (io.EOF, ErrNoMatch…) / infeasible
 						continue
 					}
-					walk(s)
+					walk(s, x)
+				}
+				if only != nil {
+					delete(seen, x) // the block may be entered again from another predecessor with another outcome
 				}
 			}
-			walk(start)
+			walk(start, b)
 			if reported[key] {
 				continue
 			}
